@@ -87,7 +87,7 @@ class _StrReplacer(_Replacer[str]):
     def _sub(self, s: str) -> str:
         try:
             return self._regex.sub(self._replacement, s)
-        except re.error as ex:
+        except (re.error, IndexError) as ex:
             raise HardErrorException(
                 text_docs.single_pre_formatted_line_object('Invalid replacement string: ' + str(ex))
             )
